@@ -168,6 +168,18 @@ class SeqSlice(SymSeq):
         return self.base.get(i + self.lo)
 
 
+class NestedSeq(SymSeq):
+    """Sequence (symbolic length) of sequences that all have the same symbolic length `inner_len`: element i is the sequence whose
+    columns are the arrays Select(col, i).  cols: z3 arrays Int -> (Array Int -> T)."""
+
+    def __init__(self, length, cols, inner_len, inner_width=None, inner_kind='tuple', name=None):
+        SymSeq.__init__(self, length, cols, None, 'list', name)
+        self.inner_len, self.inner_width, self.inner_kind = inner_len, inner_width, inner_kind
+
+    def get(self, i):
+        return SymSeq(self.inner_len, [z3.Select(c, i) for c in self.cols], self.inner_width, self.inner_kind, "%s[%s]" % (self.name or 'rows', i))
+
+
 def shape_of(v):
     """Structure of a value made of scalars: ('s', sort) | ('o', sort) | ('t'|'l'|'r', [shapes]) | ('d', [(key, shape)])."""
     if isinstance(v, Opaque):
